@@ -229,7 +229,18 @@ class Interp:
                     continue
                 m.set_slots(self._merge_slots(cond_t, s1, s2))
             val = V.merge(cond_t, v1, v2) if want_value else None
-        except (NeedFork, PyRaise, ReturnSig, BreakSig, ContinueSig, CannotMerge, PathEnd) as e:
+        except (NeedFork, PyRaise, ReturnSig, BreakSig, ContinueSig, CannotMerge, PathEnd,
+                EngineError) as e:
+            if isinstance(e, EngineError):
+                # a construct out of reach inside a speculated branch only matters if that branch
+                # is feasible: fall back to deciding the condition (which checks feasibility)
+                self._rollback(mark, snap0)
+                if c.feasible(cond_t) and c.feasible(z3.Not(cond_t)):
+                    raise
+                del c.script[p0:]
+                c.script.append(('s', False))
+                c.pos = p0 + 1
+                return False, None
             if not fresh:
                 raise EngineError(f'speculation replay diverged: {type(e).__name__} {e}')
             self._rollback(mark, snap0)
@@ -320,6 +331,8 @@ class Interp:
         from .strings import XStr
         if isinstance(v, XStr):
             return v.nonempty()
+        if type(v).__name__ in ('AbsLine', 'OpaqueMatch'):
+            return True
         if isinstance(v, Sym):
             raise EngineError(f'truth of {v!r}')
         return bool(v)
@@ -367,6 +380,13 @@ class Interp:
         from . import ext as _ext
         if isinstance(a, _ext.SByte1) or isinstance(b, _ext.SByte1):
             return _ext.bytes_eq(self, a, b)
+        if isinstance(a, _ext.AbsFirstChar) or isinstance(b, _ext.AbsFirstChar):
+            fc, lit = (a, b) if isinstance(a, _ext.AbsFirstChar) else (b, a)
+            if lit == '%':
+                return mk_bool(fc.line.kind() == _ext.LINE_PERCENT)
+            raise EngineError('comparison of the first character of an abstract line')
+        if isinstance(a, _ext.AbsLine) and isinstance(b, _ext.AbsLine):
+            return mk_bool(T(a.id) == T(b.id))
         if isinstance(a, _ext.JDump) and isinstance(b, _ext.JDump):
             return self.eq(a.v, b.v)      # as JSON values (object key order is immaterial)
         if isinstance(a, _ext.JDump) or isinstance(b, _ext.JDump):
@@ -706,6 +726,9 @@ class Interp:
                 v = f.locals[name]
                 if v is UNBOUND:
                     raise PyRaise(UnboundLocalError, (name,))
+                if v is V.LOOP_UNKNOWN:
+                    raise EngineError(f'local {name!r} is carried over from a previous loop '
+                                      f'iteration but the loop contract gives no shape for it')
                 if name in f.maybe_unbound:
                     raise EngineError(f'local {name!r} may be unbound here (bound on one branch only)')
                 return v
@@ -853,6 +876,18 @@ class Interp:
         if self.ctx.decide(c):
             return self.ev(node.body, fr)
         return self.ev(node.orelse, fr)
+
+    def ev_Yield(self, node, fr):
+        """A generator is run to completion; what it yields is collected, in order, in the ghost
+        list __yielded__ of its frame (the function's result)."""
+        v = self.ev(node.value, fr) if node.value is not None else None
+        f = fr
+        while f is not None and '__yielded__' not in f.locals:
+            f = f.parent
+        if f is None:
+            raise EngineError('yield outside a generator frame')
+        f.locals['__yielded__'].items.append(v)
+        return None
 
     def ev_Lambda(self, node, fr):
         return Closure(node, fr)
@@ -1237,6 +1272,11 @@ class Interp:
             i = self.norm_index(idx, len(obj.slots))
             return self.select_chain(i, obj.slots)
         from . import ext as _ext
+        if isinstance(obj, _ext.AbsLine):
+            if idx == 0:
+                # first character: '%' exactly for PERCENT lines (an opaque non-'%' char otherwise)
+                return _ext.AbsFirstChar(obj)
+            raise EngineError('indexing an abstract line')
         if isinstance(obj, _ext.SExt):
             f = _ext.GETITEM.get(obj.kind)
             if f is None:
@@ -1342,6 +1382,10 @@ class Interp:
         from .strings import XStr
         if isinstance(obj, XStr):
             return obj.getslice(self, lo, hi, st)
+        from . import ext as _ext2
+        if isinstance(obj, _ext2.AbsLine):
+            from .strings import XStr as _XS
+            return _XS.atom(self.ctx.fresh_name('line_part'))      # an opaque part of the line
         if any(isinstance(x, Sym) for x in (lo, hi, st)):
             if isinstance(obj, str):
                 from .strings import XStr as X2
